@@ -124,10 +124,10 @@ def zeroCell : CType → Cell
 abbrev UpperOracle := Bytes → Bytes
 
 /-- One instruction applied to the rows selected by `mask` (all rows for `Apply`); other rows get the zero/null value.
-`fillAll` mirrors the recorded finding KF-C06-fapply-fill: constants and column copies ignore the mask. -/
+`fillAll` mirrors the recorded finding KF-C06-fapply-fill: column copies ignore the mask. -/
 def applyInstr (up : UpperOracle) (f : LFrame) (mask0 : Nat → Bool) (ins : Instr) (fillAll : Bool := false) : Res :=
   let mask : Nat → Bool := match ins.fn with
-    | .const _ | .colCopy _ => if fillAll then (fun _ => true) else mask0
+    | .colCopy _ => if fillAll then (fun _ => true) else mask0
     | _ => mask0
   let buildZ (ty : CType) (z : Cell) (g : Nat → Cell) : Res :=
     if legalName ins.dst then
@@ -176,10 +176,13 @@ def applyInstr (up : UpperOracle) (f : LFrame) (mask0 : Nat → Bool) (ins : Ins
         | none => .err
       | .builtin name =>
         if name == strBytes "ToUpper" && c.ty == .enum then
-          -- the value table is upper-cased (the column stays an enum, no longer strict)
+          -- the value table is upper-cased, values that become equal are merged (the column stays an enum, no longer strict)
           if legalName ins.dst then
-            .ok (setCol f { name := ins.dst, ty := .enum, vals := c.vals.map up, strict := false,
-                            cells := c.cells.map (fun x => match x with | .str (some s) => .str (some (up s)) | y => y) })
+            -- (the code works on the value table and ignores the row mask of FilteredApply: recorded finding, `fillAll`)
+            let m : Nat → Bool := if fillAll then (fun _ => true) else mask0
+            .ok (setCol f { name := ins.dst, ty := .enum, vals := dedup (c.vals.map up), strict := false,
+                            cells := ((List.range f.n).map (fun r => if m r then
+                              (match c.cells[r]! with | .str (some s) => Cell.str (some (up s)) | y => y) else Cell.str none)).toArray })
           else .err
         else if name == strBytes "ToUpper" && c.ty == .string then
           -- the result is built as a packed string blob: rows outside the mask hold the empty string (the zero value)
